@@ -85,7 +85,16 @@ def ob_offer_task(vc):
     w = IWorld(vc)
     inst, t = w.inst, w.t
     inst._task = LL.Task(w.loop, None)  # as start() leaves it
-    o = vc.outcome(vc.drive, vc.body(SD.ServiceInstance._offer_task)(inst), w.log, None, True)
+    restarted = vc.bool("restarted_before_cancellation_is_delivered")
+
+    def stopped():
+        # the cancellation is delivered after stop() has run: no task, not ready -- unless the
+        # instance was started again in the same loop iteration (a new task is in place)
+        inst._can_answer_offers = False
+        if not restarted:
+            inst._task = None
+
+    o = vc.outcome(vc.drive, vc.body(SD.ServiceInstance._offer_task)(inst), w.log, None, True, stopped)
     offer = w.service.create_offer_entry(t.ANNOUNCE_TTL)
     stop_offer = w.service.create_offer_entry(0)
     log = w.log
